@@ -90,3 +90,11 @@ where
 pub fn pattern_status(pattern: &crate::pattern::MultiPattern) -> u8 {
     pattern.status() as u8
 }
+
+/// one private building block of the sort (see `par_sort::verif_component`)
+pub fn sort_component<T, F>(which: u8, v: &mut [T], arg: usize, is_less: &F) -> (usize, bool)
+where
+    F: Fn(&T, &T) -> bool,
+{
+    crate::par_sort::verif_component(which, v, arg, is_less)
+}
